@@ -338,6 +338,9 @@ class Projector:
             vals.append({"k": r["k"], "b": b, "fn": r["fn"], "p": [self.model(v) for v in r["p"]], "sp": r.get("sp", "lit")})
         m["val"] = vals
         m["dflt"] = [self.model(v) for v in d["dflt"]]
+        if fam == "int":
+            lo, hi = INT_TYPES[d["ty"]]
+            m["tmin"], m["tmax"] = self.model(lo), self.model(hi)
         return m
 
     def zero(self):
@@ -363,6 +366,15 @@ def item_values(d, ep, inp, out, x):
     elif ep == "cmp":
         vals.append(dec_value(d, x["a"]))
         vals.append(dec_value(d, x["b"]))
+    elif ep == "arb":
+        if k == "ok":
+            vals.append(dec_value(d, out["v"]))
+        return vals
+    elif ep == "arb_cover":
+        for lo_, hi_ in out.get("runs", []):
+            vals.append(int(lo_))
+            vals.append(int(hi_))
+        return vals
     elif ep == "sort":
         for f in (x.get("made", []), out.get("sorted", []), out.get("set", []), out.get("max", [])):
             for v in f:
@@ -395,6 +407,15 @@ def collect_values(d, proj, batches):
             proj.add(v)
     for v in d["dflt"]:
         proj.add(v)
+    if d["fam"] == "int":
+        # keep the neighbours of every bound and of the type limits in the table, so that on rank-projected
+        # types rank(b) + 1 = rank(b + 1) (the generator models add and subtract one)
+        lo, hi = INT_TYPES[d["ty"]]
+        marks = {lo, hi} | {r["b"] for r in d["val"] if r["k"] in bounded}
+        for mk_ in marks:
+            for k_ in (-2, -1, 0, 1, 2):
+                if lo <= mk_ + k_ <= hi:
+                    proj.add(mk_ + k_)
     for b in batches:
         for (inp, out, x) in b["b"]:
             for v in item_values(d, b["ep"], inp, out, x):
@@ -455,6 +476,14 @@ def model_item(d, proj, ep, inp, out, x):
         else:
             o = {f: out[f] for f in ("eq", "ieq", "pcmp", "ipcmp", "cmp", "hash") if f in out}
         return {"ok": True, "v": [proj.model(dec_value(d, x["a"])), proj.model(dec_value(d, x["b"]))]}, o, None
+    if ep == "arb":
+        if k == "hang":
+            return {"ok": True, "v": [list(inp)]}, {"k": "hang", "v": [], "e": ""}, None
+        return {"ok": True, "v": [list(inp)]}, model_out(d, proj, out), None
+    if ep == "arb_cover":
+        return ({"ok": True, "v": []},
+                {"runs": [[proj.model(int(a)), proj.model(int(b))] for a, b in out["runs"]],
+                 "panics": min(int(out["panics"]), 1000000), "errs": min(int(out["errs"]), 1000000), "oks": min(int(out["oks"]), 1000000)}, None)
     if ep == "sort":
         made = [proj.model(dec_value(d, v)) for v in x.get("made", [])] if x else []
         if k == "panic":
@@ -492,7 +521,7 @@ def project(decls_by_id, obs_path):
                 mi, mo, env = it
                 ins.append(mi)
                 outs.append(mo)
-                if d["fam"] == "string" and b["ep"] not in ("views", "cmp", "ser", "sort"):
+                if d["fam"] == "string" and b["ep"] not in ("views", "cmp", "ser", "sort", "arb", "arb_cover"):
                     envs.append(env if env is not None else [])
                 raw.append((inp, out, x))
             if not ins:
